@@ -858,6 +858,14 @@ impl<'d> Session<'d> {
                 _ => {}
             }
         }
+        // one name, two different schemas (a hint used twice, a hint that names a
+        // definition): typify keeps the first by name; which schema the type has
+        // is the business of other invariants, no value is predicted here
+        let mut schemas_of: BTreeMap<String, BTreeSet<String>> = BTreeMap::new();
+        for (name, sch, _) in &targets {
+            schemas_of.entry(name.clone()).or_default().insert(sch.to_string());
+        }
+        targets.retain(|(name, _, _)| schemas_of.get(name).map(|s| s.len() == 1).unwrap_or(false));
         let defs = self.defs.clone();
         let strip = |v: &Value| -> Value {
             let mut v = v.clone();
@@ -927,6 +935,16 @@ impl<'d> Session<'d> {
                 }
             }
             if !expect.is_empty() && seen.insert((name.clone(), "property-defaults".into())) {
+                if required.is_empty() && self.desc_settings.struct_builder {
+                    // the builder's initial values: `T::builder().try_into()`
+                    self.out.value_probes.push(ValueProbe {
+                        type_name: name.clone(),
+                        kind: "builder-defaults".into(),
+                        site: site.clone(),
+                        input: None,
+                        expect: expect.clone(),
+                    });
+                }
                 self.out.value_probes.push(ValueProbe {
                     type_name: name,
                     kind: "property-defaults".into(),
